@@ -266,6 +266,28 @@ const KEYS: [&str; 4] = [
 
 pub fn spaces_c03(tier: Tier) -> Vec<Space> {
     let mut v = common_spaces("C03", sh::FORKID_FLAGS, tier, false);
+    // subscripts containing OP_CODESEPARATOR: the FORKID digest commits to the subscript byte for byte
+    {
+        let subs = std::sync::Arc::new(codesep_subscripts());
+        let n = subs.len() as u64;
+        v.push(Space::new("codeseparators-kept", n * 6 * 2, move |case, acc| {
+            let c = coords(case.idx, &[n, 6, 2]);
+            let (_desc, sub) = &subs[c[0] as usize];
+            let tx = base_tx(2, 2, &[7, 0xfffffffe], false);
+            check_preimage("C03", &Q { tx: &tx, idx: c[2] as usize, subscript: sub, value: 3, flag: sh::FORKID_FLAGS[c[1] as usize] }, acc, case);
+        }));
+    }
+    // bounded histories with the SPEC as oracle: build through the construction API, observe with flag f1,
+    // apply one mutation, observe with flag f2 — the second preimage must equal the specification on the new contents
+    {
+        v.push(Space::new("construct-observe-mutate-observe", 6 * 6 * HIST_MUTATIONS.len() as u64 * 2, move |case, acc| {
+            let c = coords(case.idx, &[6, 6, HIST_MUTATIONS.len() as u64, 2]);
+            let (f1, f2) = (sh::FORKID_FLAGS[c[0] as usize], sh::FORKID_FLAGS[c[1] as usize]);
+            let mutation = HIST_MUTATIONS[c[2] as usize];
+            let idx = c[3] as usize;
+            history_case(acc, case, f1, f2, mutation, idx);
+        }));
+    }
     // sign leg: signature over the specified preimage must verify under the reference verifier
     let sl = std::sync::Arc::new(shapes(if tier.is_thorough() { 3 } else { 2 }, 2));
     let n = sl.len() as u64;
@@ -331,6 +353,93 @@ pub fn spaces_c03(tier: Tier) -> Vec<Space> {
         }
     }));
     v
+}
+
+const HIST_MUTATIONS: [&str; 10] = [
+    "none",
+    "set_input(same outpoint, other sequence)",
+    "set_input(same txid, other vout)",
+    "set_input(other txid)",
+    "set_output(same script, other value)",
+    "set_output(other script, same value)",
+    "set_version",
+    "set_nlocktime",
+    "add_input",
+    "add_output",
+];
+
+fn lib_txin(i: &RIn) -> bsv::TxIn {
+    bsv::TxIn::new(&i.txid_display(), i.vout, &Script::from_bytes(&i.script).unwrap(), Some(i.sequence))
+}
+
+fn lib_txout(o: &ROut) -> bsv::TxOut {
+    bsv::TxOut::new(o.value, &Script::from_bytes(&o.script).unwrap())
+}
+
+fn history_case(acc: &mut Acc, case: &Case, f1: u32, f2: u32, mutation: &str, idx: usize) {
+    acc.evaluations += 1;
+    acc.transitions += 4;
+    acc.traces += 1;
+    acc.nontrivial_structural += 1;
+    let mut model = base_tx(2, 2, &[0x01020304, 0xfffffffe], false);
+    let sub = p2pkh(0x55);
+    let value = 0x0102030405u64;
+    let input = json!({"flag_before": format!("0x{:02x}", f1), "mutation": mutation, "flag_after": format!("0x{:02x}", f2), "input_index": idx});
+    let m0 = model.clone();
+    let lib = guard(|| -> Result<Vec<u8>, String> {
+        let mut t = Transaction::new(m0.version, m0.locktime);
+        for i in &m0.inputs {
+            t.add_input(&lib_txin(i));
+        }
+        for o in &m0.outputs {
+            t.add_output(&lib_txout(o));
+        }
+        let script = Script::from_bytes(&sub).unwrap();
+        let _ = t.sighash_preimage(flag_to_sighash(f1).unwrap(), idx, &script, value).map_err(|e| e.to_string())?;
+        match mutation {
+            "set_input(same outpoint, other sequence)" => t.set_input(1, &lib_txin(&RIn { sequence: 0x0a0b0c0d, ..m0.inputs[1].clone() })),
+            "set_input(same txid, other vout)" => t.set_input(0, &lib_txin(&RIn { vout: 0x7777, ..m0.inputs[0].clone() })),
+            "set_input(other txid)" => t.set_input(1, &lib_txin(&RIn { txid_wire: [0x5a; 32], ..m0.inputs[1].clone() })),
+            "set_output(same script, other value)" => t.set_output(1, &lib_txout(&ROut { value: 42, ..m0.outputs[1].clone() })),
+            "set_output(other script, same value)" => t.set_output(0, &lib_txout(&ROut { script: vec![0x51], ..m0.outputs[0].clone() })),
+            "set_version" => {
+                t.set_version(0x0badcafe);
+            }
+            "set_nlocktime" => {
+                t.set_nlocktime(0x0000beef);
+            }
+            "add_input" => t.add_input(&lib_txin(&RIn { txid_wire: [0x33; 32], vout: 9, script: vec![], sequence: 0x00000011 })),
+            "add_output" => t.add_output(&lib_txout(&ROut { value: 77, script: vec![0x52] })),
+            _ => {}
+        }
+        t.sighash_preimage(flag_to_sighash(f2).unwrap(), idx, &script, value).map_err(|e| e.to_string())
+    });
+    match mutation {
+        "set_input(same outpoint, other sequence)" => model.inputs[1].sequence = 0x0a0b0c0d,
+        "set_input(same txid, other vout)" => model.inputs[0].vout = 0x7777,
+        "set_input(other txid)" => model.inputs[1].txid_wire = [0x5a; 32],
+        "set_output(same script, other value)" => model.outputs[1].value = 42,
+        "set_output(other script, same value)" => model.outputs[0].script = vec![0x51],
+        "set_version" => model.version = 0x0badcafe,
+        "set_nlocktime" => model.locktime = 0x0000beef,
+        "add_input" => model.inputs.push(RIn { txid_wire: [0x33; 32], vout: 9, script: vec![], sequence: 0x00000011 }),
+        "add_output" => model.outputs.push(ROut { value: 77, script: vec![0x52] }),
+        _ => {}
+    }
+    let want = sh::forkid_preimage(&model, idx, &sub, value, f2);
+    match (lib, want) {
+        (Err(p), _) => acc.violate(format!("C03/history/kind=panic@{}", panic_site(&p)), case.idx, case.json(input), p),
+        (Ok(Err(_)), Pre::SingleOutOfRange(_)) => acc.outcome(b"refused-single"),
+        (Ok(Err(e)), _) => acc.violate("C03/history/kind=spurious-error", case.idx, case.json(input), e),
+        (Ok(Ok(got)), Pre::Bytes(w)) | (Ok(Ok(got)), Pre::SingleOutOfRange(w)) => {
+            acc.outcome(&[0x77, (got == w) as u8]);
+            if got != w {
+                let field = forkid_field(first_diff(&got, &w), sub.len());
+                acc.violate(format!("C03/history/after={}/field={}", mutation.split('(').next().unwrap_or(mutation), field), case.idx, case.json(input), format!("library={} specified={}", hx(&got), hx(&w)));
+            }
+        }
+        (Ok(Ok(_)), Pre::NoSuchInput) => {}
+    }
 }
 
 fn run_c03(ctx: &Ctx) -> Report {
